@@ -26,11 +26,12 @@ Protocol (ids are small naturals; op n is "op<n>", resource n is "r<n>" in the i
                        o's work_fn before and after the nested call, of i's resources inside i's work_fn
   deadlock             controller.check_deadlock()                    watchdog   watchdog.execute(controller)
   boost                priority_manager.check_and_boost(controller)   maint      run_maintenance()
-  exec o p r,r,..|-|none <4 x b|n|x|y|z>[@<i><act>[:<us>]]* <act>:<ok|raise[.K]>[:<us passing inside work>] <absent|yes|no|raise[.K]>[@<act>[:<us>]]
+  exec o p r,r,..|-|none <4 x b|n|x|y|z>[@<i><act>[:<us>]]* <act>:<ok|raise[.K]>[:<us passing inside work>] <absent|yes|no|raise[.K]>[~F][@<act>[:<us>]]
                        CoordinationSystem.execute_operation;  <act> = n | k<t> | s | w | m: what the callback does to the
                        system before it answers (nothing / kill_operation(op t) / shutdown / watchdog.execute /
                        run_maintenance) - the i-th checkpoint condition (i = 0..3, in call order), work_fn, validate_fn
   cell o p <same five fields as exec> <ok|notag|raise[.K]>          IntegratedCell.execute (cell.coordination = the system)
+`~F` after the validator's answer: the validator OBJECT is falsy (a list subclass with __call__, empty) - still a validator.
 A work function that returns does so with `ok` (42) or `ok.<V>`: N None, Z 0, E "", L [], F False, O object(),
 X a value whose repr() / str() / format() raise, B a value whose bool() / len() raise, Q an unhashable value whose == raises.
 Exception kinds K: V0 ValueError(), A0 AssertionError(), R0 RuntimeError(""), K0 KeyError(), C0 CustomFault() (all with
@@ -275,6 +276,8 @@ class Impl:
         act, wok = wparts[0], wparts[1]
         tick = int(wparts[2]) if len(wparts) > 2 else 0
         val = t[6].split("@")[0]
+        falsy_validator = val.endswith("~F")
+        val = val.replace("~F", "")
         val_act = None
         if "@" in t[6]:
             a = t[6].split("@")[1].split(":")
@@ -336,6 +339,14 @@ class Impl:
             if val.startswith("raise"):
                 raise make_exc(val, "validate")
             return val == "yes"
+
+        if falsy_validator:
+            # the validator OBJECT is falsy (a callable rule container with no rules of its own: __len__() == 0)
+            class FalsyValidator(list):
+                def __call__(self, x):
+                    return validate_plain(x)
+            validate_plain = validate
+            validate = FalsyValidator()
 
         def show_coord(res):
             err = "none" if res.error is None else ("empty" if res.error == "" else "text")
@@ -665,7 +676,7 @@ class CoordMixin:
 # ----------------------------------------------------------------------------------------------------------
 CP_SCRIPTS = ["bbbb"] * 6 + ["nbbb", "xbbb", "bnbb", "bxbb", "bbnb", "bbxb", "bbbn", "bbbx", "nnbb", "nbnb", "xbbn",
                               "ybbb", "bybb", "bbzb", "bbby", "bzbb"]
-VALS = ["absent", "yes", "yes", "yes", "no", "raise", "raise"]
+VALS = ["absent", "yes", "yes", "yes", "no", "raise", "raise", "no~F", "yes~F", "raise~F"]
 POSTS = ["ok", "ok", "ok", "notag", "raise", "raise.V0", "raise.Cm"]
 
 
@@ -705,8 +716,8 @@ def gen_exec(rng, op, nres, others, fault=None, cb=None):
     if act in "wm" and rng.random() < 0.6:
         wok += f":{rng.choice([1, 6, 11])}"
     val = rng.choice(VALS)
-    if val == "raise":
-        val += rng.choice(KINDS)
+    if val.startswith("raise"):
+        val = "raise" + rng.choice(KINDS) + val[5:]
     # callbacks other than work_fn that act on the system: checkpoint conditions (mostly the G0 one, before the
     # acquisitions) and validate_fn
     if cb is None:
@@ -785,8 +796,8 @@ def gen_ended_in_callback(rng):
     how = rng.choice(["k1", "k1", "k1", "s", "s", f"w:{L + 1}", f"m:{L + 1}", f"w:{L}", "w"])
     cps = rng.choice(CP_SCRIPTS)
     val = rng.choice(VALS)
-    if val == "raise":
-        val += rng.choice(KINDS)
+    if val.startswith("raise"):
+        val = "raise" + rng.choice(KINDS) + val[5:]
     if where == "v":
         if val == "absent":
             val = "yes"
